@@ -798,6 +798,7 @@ func (fc *FnCtx) verify() {
 	}
 	vars := bindParams(con, fn, args)
 	fc.params = vars
+	fc.replayPlan(st, fn, args)
 	if con != nil {
 		for _, cl := range con.Requires {
 			env := fc.specEnv(st, nil, vars, con.Pkg, fr, cl.Text)
